@@ -1,7 +1,8 @@
 """C16 — object export / import round-trips and survives JSON."""
 from vfam import *  # noqa
 
-THEOREMS = []
+THEOREMS = ["C16_hex_roundtrip", "C16_json_idempotent", "C16_uint_roundtrip", "C16_bool_roundtrip"]
+PARTIAL = ["C16_shape / C16_roundtrip for composite kinds are not proved; exported shape (tagged: int / bool / str / list / tuple / dict / None), from_obj, JSON round trip and alternative spellings are compared with the model and with the root of the original by the correspondence"]
 COQ_IMPORTS = ["RM.Types", "RMR.RunC16"]
 COQ_FN = "RunC16.run"
 COQ_CASE_TY = "RunC16.case"
